@@ -72,7 +72,7 @@ def match_known(known, prop, fail):
     for k in known.get('findings', []):
         if k.get('property') != prop:
             continue
-        if k.get('obligation') != fail.get('obligation'):
+        if fail.get('obligation') not in ([k.get('obligation')] + list(k.get('obligations', []))):
             continue
         if 'exit' in k and k['exit'] != fail.get('exit'):
             continue
@@ -232,18 +232,28 @@ def run_property(prop, tier, seed):
         out = rr['stdout'].strip()
         if out == k['replay']['defective_output'].strip():
             known_hits.append((k, {'obligation': 'replay:' + ' '.join(k['replay']['args'])}))
-        elif out == k['replay']['expected_output'].strip():
+        elif out == k['replay'].get('expected_output', '\0').strip() or ('expected_prefix' in k['replay'] and out.startswith(k['replay']['expected_prefix'])):
             notes.append('NOTE known finding no longer reproduces (now as the property requires): %s' % k.get('what'))
         else:
             violations.append(('replay', {'obligation': 'replay:' + ' '.join(k['replay']['args']), 'kind': 'replay', 'rendered': 'expected %r, recorded defect %r, observed %r' % (
-                k['replay']['expected_output'], k['replay']['defective_output'], out), 'spans': [],
+                k['replay'].get('expected_output', k['replay'].get('expected_prefix')), k['replay']['defective_output'], out), 'spans': [],
                 'witness': {'confirmed_on_real_code': True, 'input': k['replay']['args'], 'observed': out, 'replay': {'driver': k['replay']['driver'], 'args': k['replay']['args']}}}))
     # ---- bounded stand-ins (labelled bounded, never counted as proved): functions outside the verifier's reach
     bounded_info = []
     for (n, m) in serving:
         for b in getattr(m, 'BOUNDED', {}).get(prop, []):
             from vf import replaydrv
-            rr = replaydrv.run(b['driver'], b.get('args', []), timeout=600)
+            if b.get('script'):
+                # a stand-in that needs an oracle beside the driver: a script under /verif/tools that calls the driver itself
+                import subprocess
+                sargs = list(b.get('args', [])) + (list(b.get('thorough_args', [])) if tier == 'thorough' else []) + (['--seed', str(seed)] if b.get('seeded') else [])
+                try:
+                    sp = subprocess.run([sys.executable, os.path.join(HERE, 'tools', b['script'])] + sargs, capture_output=True, text=True, timeout=3000)
+                    rr = {'ok': sp.returncode == 0, 'stdout': sp.stdout, 'error': (sp.stdout + sp.stderr)[-500:]}
+                except subprocess.TimeoutExpired:
+                    rr = {'ok': False, 'error': 'timeout'}
+            else:
+                rr = replaydrv.run(b['driver'], b.get('args', []), timeout=600)
             if not rr.get('ok'):
                 undecided.append('bounded stand-in %s could not run: %s' % (b['name'], rr.get('error')))
                 continue
@@ -255,7 +265,7 @@ def run_property(prop, tier, seed):
                 undecided.append('bounded stand-in %s produced no summary' % b['name'])
             for fl in fails:
                 violations.append(('bounded', {'obligation': 'bounded:%s' % b['name'], 'kind': 'bounded-check', 'rendered': fl, 'spans': [],
-                                               'witness': {'confirmed_on_real_code': True, 'input': fl, 'replay': {'driver': b['driver'], 'args': b.get('args', [])}}}))
+                                               'witness': {'confirmed_on_real_code': True, 'input': fl, 'replay': {'driver': b.get('driver'), 'script': b.get('script'), 'args': b.get('args', [])}}}))
     # ---- syntactic frame conditions (unit hook FRAME): "every function outside the contracted set has no access path to the
     # state" is decided by scanning the real source text on every run; a function that gains an access path without being
     # under contract fails the frame obligation (there is no verifier counterexample for it).
@@ -275,7 +285,11 @@ def run_property(prop, tier, seed):
     # ---- report
     for nmsg in notes:
         print(nmsg)
+    printed = set()
     for (k, f) in known_hits:
+        if id(k) in printed:
+            continue
+        printed.add(id(k))
         print('KNOWN-FINDING: property=%s %s' % (prop, k.get('what', f['obligation'])))
     rc = 0
     replay_paths = []
